@@ -148,6 +148,10 @@ def fg_id_numpy(  # noqa: PLR0913
         # Assign fg to einstandspartner
         if current_p_id_einstandspartner >= 0:
             p_id_to_fg_id[current_p_id_einstandspartner] = next_fg_id
+            # The partner is not visited again: also collect the partner's children.
+            current_p_id_children = current_p_id_children + p_id_to_p_ids_children.get(
+                current_p_id_einstandspartner, []
+            )
 
         # Assign fg to children
         for current_p_id_child in current_p_id_children:
